@@ -20,4 +20,17 @@ PROPS = {
     },
 }
 
+PROPS["C07"] = {
+    "theorems": ["verify_iff", "identity_sig_never_verifies", "verify_honest_iff", "sign_verifies",
+                 "randomize_verifies_iff", "randomize_zero_rejected", "blind_randomize_unblind",
+                 "blind_randomize_unblind_verifies", "blindsign_unblind_verifies_iff", "blindsign_unblind_verifies",
+                 "blindsign_zero_rejected", "single_coord_change_rejects", "single_coord_change_rejects_anykey",
+                 "verify_other_key_iff", "chain_verifies"],
+    "rule": "N in {1,2,3,5,8,13}; keys from KeyPair::new under the scripted RNG (sometimes with leading zero scalar draws) compared element by element with the model's keygen, or decoded from bytes with chosen dlogs; messages over {0,1,q-1,small,random}; signature from sign, then a random chain (depth 0..6) of randomize (re-randomiser forced to 0 in 1/12), blind_and_randomize+unblind, blind-sign (via a signature-request proof) + unblind with right / wrong blinding factor (blind-signing scalar forced to 0 in 1/10), re-encode; after each step verify is compared with the model, with the two-pairing oracle and with the verdict the theorems predict; every single-coordinate change and an independent key on valid signatures; raw (sigma1, sigma2) pairs, matching and non-matching, under arbitrary (not keygen-shaped) public keys. Distinct = new request line.",
+    "explanation": "Theorems: verify is true iff sigma1 != 1 and e(sigma1, X~ prod Y~i^mi) = e(sigma2, g~) for every public key; under keygen-shaped keys valid iff sigma2 = sigma1^(x + sum yi mi); sign / randomize (r != 0) / blind_and_randomize+unblind / blind-sign+unblind(bf' = bf exactly) / any chain of these verify; single-coordinate change rejects (also for arbitrary keys with Y~i != 1); other key accepts iff a linear coincidence; identity signature, r = 0 and u = 0 rejected. Correspondence: every real operation vs the model in exponent space (exact), independent oracle = bls12_381::pairing on the real elements.",
+    "level_text": "Proof: exact characterisation of PS verification and of every derivation path as Lean theorems for all fields, modules, pairings, lengths, keys, messages, signatures and chains (induction over the chain); model tied to the Rust code by an exact exponent-space differential run plus a two-pairing oracle.",
+    "level_note": "Trusted: Lean kernel + Mathlib (axioms propext/Classical.choice/Quot.sound); correspondence harness (finite sample per run); bls12_381 pairing bilinear and non-degenerate over prime-order groups.",
+    "assumptions": ["bls12_381::pairing is bilinear and non-degenerate; G1, G2, GT have prime order q", "'fails for an independent key' is a probability-(1-1/q) statement: the theorem gives the exact linear condition, the harness samples it"],
+}
+
 NOT_APPLICABLE = {}
